@@ -458,6 +458,7 @@ are:
 """
 
 import dataclasses
+import errno
 import io
 import logging
 import os
@@ -803,12 +804,18 @@ class _FileRequestHandlerBase(DataSourceAware):
             if os.path.isdir(file):
                 return None, file
             raise
-        except (FileNotFoundError, IsADirectoryError):
+        except (FileNotFoundError, IsADirectoryError, NotADirectoryError):
             # We treat a request to a file that is actually a directory like a
             # request to a file that does not exist. This is consistent with
             # our behavior that we do not allow a request with an extra path
             # that has a trailing slash.
             return None, file
+        except OSError as err:
+            # A path with a component that is too long cannot refer to an
+            # existing file either.
+            if err.errno == errno.ENAMETOOLONG:
+                return None, file
+            raise
 
     def _init_request_path(self, config):
         request_path = config["request_path"]
